@@ -538,6 +538,11 @@ class ProgGen:
         axis = rng.randint(0, x.ndim_n)
         s = rng.choice([1, -1]) if not mal else rng.choice([0, 2])
         t = tgen.rand_charge(rng, self.symname)
+        if rng.random() < 0.3:   # any integers are accepted and reduced to the canonical range of the group
+            t = tuple(c + rng.randint(-4, 4) for c in t)
+        if mal and t and rng.random() < 0.5:   # wrong number of charge components
+            t = t + (0,) if rng.random() < 0.5 else t[:-1]
+            s = rng.choice([1, -1])
         model = {"f": "add_leg", "a": [i], "axis": axis, "s": s, "t": list(t)}
         default = (not mal) and rng.random() < 0.25
         if default:  # add_leg(axis, s) with t=None: leg takes the tensor charge, n becomes 0
